@@ -96,6 +96,8 @@ def mustfail(I):
 
 
 def witness_case(task, cover):
+    if task.name.startswith("refinement["):
+        return None
     return sc.conn_native_case("process_message", cover["inputs"], comp_ids_ok=True)
 
 
@@ -104,9 +106,7 @@ def witness_agrees(task, cover, engine, obs):
     # frames written by the contracted _process_resend are not modelled one by one
     # (nor is its outcome: the contract leaves "completed / stopped half way" open, so the fields it havocs are
     #  not predictions of the engine)
-    if any(w.get("opaque") for w in eo.get("W", [])):
-        for k in ("W", "EV", "st", "was_active", "nout", "J_out"):
-            eo.pop(k, None)
+    sc.drop_resend_predictions(eo)
     bad = sc.conn_agrees(eo, obs)
     if bad:
         obs["mismatch"] = bad
@@ -114,6 +114,8 @@ def witness_agrees(task, cover, engine, obs):
 
 
 def replay_case(task, vc):
+    if task.name.startswith("refinement["):
+        return None  # reported without an input: the relation is over symbolic journal rows
     return {"family": "conn", "case": sc.conn_native_case("process_message", vc["model"], comp_ids_ok=True)}
 
 
@@ -135,23 +137,41 @@ FUNCS = [CONN + "." + f for f in ("_process_message", "_validate_integrity", "_c
     "asyncfix.session.FIXSession.set_next_num_in", "asyncfix.session.FIXSession.validate_comp_ids",
     "asyncfix.message.FIXContainer.get", "asyncfix.message.FIXContainer.set", "asyncfix.message.FIXContainer.__contains__"]
 
+import C06_resend as c06  # noqa: E402
+
 TASKS = [
-    Task("_process_message", harness, ic.pm_cfg(), FUNCS, native="conn", timeout_ms=20000),
-    Task("mustfail", mustfail, ic.pm_cfg(), [], expect_refuted=True),
+    Task("_process_message", harness, ic.pm_cfg(ic.RESEND_NEEDS["C04"]), FUNCS, native="conn", timeout_ms=20000),
+    # the callee contract of _process_resend used above is a proved over-approximation of the real body
+    c06.refinement_task(ic.RESEND_NEEDS["C04"], ic.RESEND_INV["C04"]),
+    # A-IND: the induction step of the history sentences, from the clause terms proved above (history_lemmas.py)
+    Task("lemma[history]", lambda I: __import__("history_lemmas").c04_history_lemma(I), Config, []),
+    Task("lemma[history,mustfail]", lambda I: __import__("history_lemmas").c04_history_mustfail(I), Config, [],
+         expect_refuted=True),
+    Task("mustfail", mustfail, ic.pm_cfg(ic.RESEND_NEEDS["C04"]), [], expect_refuted=True),
 ]
+for _t_ in TASKS:
+    if _t_.name.startswith("lemma["):
+        _t_.cover = False
+# (Codec.encode's number choice and the journal writes stay callee contracts proved under C05 / C13: the statement of
+#  C04 does not speak about outbound numbers or stored rows, and running those obligations here would raise C04 alarms
+#  for changes that leave C04 true)
 
 PROPERTY = Property(
     "C04", TASKS,
     assumptions=[
         "A-IND: 'strictly increasing, nothing twice, nothing past a gap' follow from the per-message clauses by induction "
-        "over the inbound history (not mechanised); pre-states range over everything satisfying Inv (I1 counters >= 1, "
+        "over the inbound history: the induction step is discharged by z3 from the proved clause terms (task "
+        "lemma[history]: trace invariant 'last delivered number < expected number'), that a history is a sequence of "
+        "such steps is by reading; pre-states range over everything satisfying Inv (I1 counters >= 1, "
         "I3 no journal row at or above the live counters, I4 resend bookkeeping, I6 writer present iff connected)",
-        "_process_resend is replaced by an assumed, over-approximating contract (C06 is not built, so it is unchecked): it "
-        "writes only retransmissions and gap fills (no ResendRequest), does not touch the inbound counter, the resend "
-        "watermark or the delivered trace, and either completes (outbound counter and state restored) or stops half way "
-        "with an Exception (state RESENDREQ_HANDLING unless awaiting, outbound counter >= 1 with no journal row at or above it)",
+        "_process_resend is called by contract (inbound_common.contract_process_resend = havoc + the relation "
+        "resend_kind_clauses: ignored / served / failed before any effect / failed half way; writes only retransmissions "
+        "and gap fills, never a ResendRequest, does not touch the inbound counter, the resend watermark, the delivered "
+        "trace or the heartbeat bookkeeping); the relation is PROVED on the real body from every connected state by the "
+        "task refinement[_process_resend] (under C06's boundary contracts: recover_messages, decode of a journal row, "
+        "should_replay); the kind 'failed half way' over-approximates a journal row that does not decode",
         "Codec.encode sequence-number contract (proved in C05); Journaler.persist_msg / set_seq_num abstract contracts "
-        "(unchecked: the C13 check of the SQL bodies is not built); raw_msg is the frame msg was decoded "
+        "(consequences of the clauses proved on the SQL bodies in C13: refinement tasks there); raw_msg is the frame msg was decoded "
         "from, so find_seq_no(raw_msg) = int(msg[34])",
         "A-HOOK: application hooks neither touch connection state nor raise; A-IO: transport calls do not raise; A-LOG",
         "the inbound message carries the session's CompIDs and the protocol BeginString (domain of the statement); a tag "
